@@ -29,7 +29,11 @@ DataMatch(k, a, b) ==
     [] k.t = "Mean" -> /\ b.rendered /\ a.n = b.n
                        /\ IF k.inner = "DSum" THEN PolyEq(PolyOf(a.s), PolyOf(b.s)) ELSE a.s = b.s
     [] k.t = "VMC" -> b.rendered /\ a.n = b.n /\ a.s = b.s /\ a.vnum = b.vnum /\ a.vden = b.vden
-    [] k.t = "Vec" -> \A j \in 1..2 : DataMatch(k.inner, a[j], b[j])
+    [] k.t = "Vec" -> /\ Len(a) = Len(b)
+                      /\ \A j \in 1..Len(a) :
+                           IF "pad" \in DOMAIN a[j] THEN "pad" \in DOMAIN b[j]
+                           ELSE /\ "pad" \notin DOMAIN b[j] /\ a[j].h = b[j].h /\ a[j].c = b[j].c
+                                /\ DataMatch(k.inners[j], a[j].d, b[j].d)
     [] OTHER -> a = b
 ItemMatch(k, a, b) == a.h = b.h /\ a.c = b.c /\ DataMatch(k, a.d, b.d)
 ObsMatch(k, spec, obs) ==
@@ -37,7 +41,9 @@ ObsMatch(k, spec, obs) ==
   ELSE /\ obs.ok /\ Len(obs.out) = Len(spec.out)
        /\ IF k.t = "GroupBy"      \* the order of the groups is not documented
           THEN {spec.out[j] : j \in 1..Len(spec.out)} = {obs.out[j] : j \in 1..Len(obs.out)}
-          ELSE \A j \in 1..Len(spec.out) : ItemMatch(k, spec.out[j], obs.out[j])
+          ELSE \A j \in 1..Len(spec.out) :
+                 IF k.t = "Mean" /\ j > 1 THEN spec.out[j] = obs.out[j]      \* further values of a multi-valued sum_seq
+                 ELSE ItemMatch(k, spec.out[j], obs.out[j])
 
 NewA(k) == /\ kind' = k /\ ekind' = k /\ st' = InitState(k) /\ since' = <<>>
            /\ res' = Ok(<<>>) /\ op' = "init"
